@@ -25,6 +25,7 @@ broadcast use auto::psc_auto;
 //@module prim_$T props=C01,C02,C03,C07,C08,C13,C14,C18
 impl Encode for $T {
     open spec fn spec_enc(&self) -> Seq<u8> { le($VAL(*self), $N) }
+    open spec fn enc_ok(&self) -> bool { true }
     //@const codec | impl Encode for $T | TYPE_INFO
     #[verifier::external_body]
     fn size_hint(&self) -> usize { $N }
@@ -54,6 +55,7 @@ broadcast use auto::psc_auto;
 //@module prim_$T props=C01,C02,C03,C07,C08,C13,C14,C18
 impl Encode for $T {
     open spec fn spec_enc(&self) -> Seq<u8> { le($VAL(*self), 1) }
+    open spec fn enc_ok(&self) -> bool { true }
     //@const codec | impl Encode for $T | TYPE_INFO
     #[verifier::external_body]
     fn size_hint(&self) -> usize { 1 }
@@ -84,6 +86,7 @@ broadcast use auto::psc_auto;
 //@module prim_bool props=C01,C02,C03,C07,C08,C13,C14,C18
 impl Encode for bool {
     open spec fn spec_enc(&self) -> Seq<u8> { if *self { seq![1u8] } else { seq![0u8] } }
+    open spec fn enc_ok(&self) -> bool { true }
     #[verifier::external_body]
     fn size_hint(&self) -> usize { 1 }
     //@fn prim.bool.using_encoded :: codec | impl Encode for bool | using_encoded
